@@ -6,7 +6,7 @@ import GoDcp.Spec.C14K
 namespace GoDcp.Driver
 open GoDcp GoDcp.Keys
 
-def hexVal (c : Char) : Option Nat :=
+def keyHexVal (c : Char) : Option Nat :=
   if '0' ≤ c ∧ c ≤ '9' then some (c.toNat - 48)
   else if 'a' ≤ c ∧ c ≤ 'f' then some (c.toNat - 87)
   else none
@@ -14,8 +14,8 @@ def hexVal (c : Char) : Option Nat :=
 def hexDecodeAux : List Char → List Char → Option (List Char)
   | [], acc => some acc.reverse
   | a :: b :: r, acc => do
-    let x ← hexVal a
-    let y ← hexVal b
+    let x ← keyHexVal a
+    let y ← keyHexVal b
     hexDecodeAux r (Char.ofNat (16 * x + y) :: acc)
   | _, _ => none
 
@@ -23,11 +23,11 @@ def hexDecodeAux : List Char → List Char → Option (List Char)
 def hexDecode (s : String) : Option Str :=
   if s = "-" then some [] else hexDecodeAux s.toList []
 
-def hexDigit (n : Nat) : Char := if n < 10 then Char.ofNat (48 + n) else Char.ofNat (87 + n)
+def keyHexDigit (n : Nat) : Char := if n < 10 then Char.ofNat (48 + n) else Char.ofNat (87 + n)
 
 def hexEncode (s : Str) : String :=
   if s.isEmpty then "-"
-  else String.ofList (s.foldr (fun c acc => hexDigit (c.toNat / 16 % 16) :: hexDigit (c.toNat % 16) :: acc) [])
+  else String.ofList (s.foldr (fun c acc => keyHexDigit (c.toNat / 16 % 16) :: keyHexDigit (c.toNat % 16) :: acc) [])
 
 /-- `key-cp HEXGROUP VB` → hex of the checkpoint document key | `panic` (rejected name) -/
 def hKeyCp (args : List String) (real : Option String) : Option Out := do
